@@ -1369,5 +1369,6 @@ func checkResponseObjectsPrivate(c *Ctx, rule string) {
 			}
 		})
 	}
-	c.check(n >= 2, rule, "responses completed after a helper or handler built them", "?", fmt.Sprintf("%d sites", n), "fewer sites than confirmed by hand (the two statvfs paths expected)")
+	// (the os-backed server's own statvfs helper exists only where the platform has statvfs; the handler path always does)
+	c.check(n >= 1, rule, "responses completed after a helper or handler built them", "?", fmt.Sprintf("%d sites", n), "no such site found (the statvfs reply of the request server expected)")
 }
